@@ -79,6 +79,9 @@ type Conn struct {
 	// wroteClose is set to 1 once a close frame has been handed to writeFrame.
 	// No other frame may follow it. Accessed atomically.
 	wroteClose int32
+	// readClose is set to 1 once a close frame from the peer has been read.
+	// Accessed atomically.
+	readClose int32
 
 	pingCounter   int32
 	activePingsMu sync.Mutex
